@@ -22,7 +22,7 @@ INFO = {
                    "Merkle-path shape check (equal vector lengths, binary direction values) guards proof_values_from_witness and "
                    "inputs_for_witness_calculation; a position outside the tree is propagated as Err. R12-3: every success path of a "
                    "proving entry point must pass through a check that the witness satisfies the circuit or a verification of the "
-                   "produced proof before writing output. R12-4 whole-message writes: the proving and witness-export entry points emit output only through write_all / serialize_compressed, never through Write::write whose count could be short.",
+                   "produced proof before writing output. R12-4 whole-message writes: the proving and witness-export entry points emit output only through write_all / serialize_compressed, never through Write::write whose count could be short. R12-5 fixed hashing arity: every Poseidon / tree-hasher call site outside the four pass-through wrappers passes an array literal of 1..8 elements (premise of classifying Poseidon's own indexing as internal).",
     "not_decided": "which requests the circuit can satisfy (circuit semantics: e.g. message_id or limit beyond the circuit's 16-bit range); "
                    "panics inside arkworks' prover",
     "assumptions": ["in-memory lengths are below 2^48, so len*32 + small does not overflow usize", "the instance's graph and key were accepted at construction (resource class)"],
@@ -180,6 +180,50 @@ def check_whole_writes(ctx, fb, cfg):
     return n
 
 
+HASH_RX = r"^rln::hashers::poseidon_hash$|Hasher>::hash$|Hasher::hash$|Poseidon::<F>::hash$"
+HASH_PASSTHROUGH = {
+    "rln::hashers::poseidon_hash": "the typed entry point: hands its slice to the shared Poseidon instance",
+    "rln::<hashers::PoseidonHash as zerokit_utils::Hasher>::hash": "tree hasher: hands the tree's pair to poseidon_hash",
+    "rln::pm_tree_adapter::<impl zerokit_utils::vacp2p_pmtree::Hasher for hashers::PoseidonHash>::hash": "pmtree hasher: same",
+    "rln::public::poseidon_hash": "byte-level hashing API: the caller chooses the arity (not a proving or verification entry point; C09's domain is 1..8)",
+}
+
+
+def check_hash_arity(ctx, fb, cfg):
+    """R12-5 premise of the classification 'Poseidon's own indexing is internal': every hashing call site of the protocol and tree code
+    passes an array literal of 1..8 elements, so no request can select an arity the parameter table lacks (which would panic in
+    poseidon_hash's expect)"""
+    from ..symex import TooComplex
+    n = 0
+    for path, it in sorted(fb.items.items()):
+        if it.kind not in ("Fn", "AssocFn", "Closure") or it.crate not in ("rln", "zerokit_utils") or it.get("test"):
+            continue
+        if not any(b["term"]["k"] == "call" and (re.search(HASH_RX, b["term"].get("resolved") or "") or re.search(HASH_RX, b["term"].get("callee") or "")) for b in it.blocks):
+            continue
+        if path in HASH_PASSTHROUGH:
+            continue
+        ctx.touch(it)
+        arities = set()
+        try:
+            eng = Engine(fb, inline=lambda i: False, max_paths=3000)
+            for p in eng.run(it):
+                for c in p.calls(HASH_RX):
+                    a = c[2][-1] if "Poseidon::<F>" in c[1] else c[2][0]
+                    if isinstance(a, tuple) and a and a[0] == "array":
+                        arities.add(len(a[1]))
+                    elif isinstance(a, tuple) and a and a[0] == "repeat" and re.match(r"(\d+)", str(a[2])):
+                        arities.add(int(re.match(r"(\d+)", str(a[2])).group(1)))      # [x; N]
+                    else:
+                        arities.add(sh(a, 60))
+        except TooComplex:
+            arities.add("not analysable")
+        n += 1
+        bad = [x for x in arities if not (isinstance(x, int) and 1 <= x <= 8)]
+        ctx.check(not bad and arities, "R12-5", "hash arity %s[%s]" % (path.split("::")[-1] if "<" not in path else path[-50:], cfg), "array literal(s) of %s element(s)" % sorted(arities, key=str),
+                  "%s hashes %s: the number of hashed elements is not fixed at this call site, so a request can reach an arity outside the parameter table (panic)" % (path, bad), loc(it))
+    ctx.floor("hash-call-sites[%s]" % cfg, n, 8)
+
+
 def run(ctx):
     cfgs = ["default", "stateless"] if ctx.tier == "quick" else ["default", "stateless", "optimal", "full"]
     ctx.prefetch(cfgs + ["fixtures"])
@@ -193,6 +237,7 @@ def run(ctx):
             n += 1
         check_gate(ctx, fb, cfg)
         check_whole_writes(ctx, fb, cfg)
+        check_hash_arity(ctx, fb, cfg)
     ctx.floor("proving-entry-points", n, 10)
     check_range_gate(ctx, ctx.fb("default"))
     # position outside the tree: the lookup's failure must be propagated
